@@ -45,7 +45,13 @@ SPEC = {
     "rule": "sequence = reset + one random cluster (max-replicas 1-5, 0-2 location labels, placement rules on/off, "
             "joint consensus on/off, reject-leader property; max-replicas+1 .. 10 stores, a third of them offline / "
             "down / disconnected / busy in two thirds of the clusters, optional TiFlash stores with a learner rule, "
-            "zone/host labels, region counts and sizes) + 2-6 fully replicated regions + 4-14 `scatter` calls over "
+            "zone/host labels, region counts and sizes; with placement rules either a TiFlash learner rule or an "
+            "unconstrained learner rule, i.e. regions with a learner on an ordinary store) + 2-6 fully replicated "
+            "regions + in half of the sequences a `put` history (RegionScatterer.Put) that leaves one store of a "
+            "region – its learner's when there is one – as the only store below the maximum, with the left-out store "
+            "often taking the leaders, followed by `dry=1` scatters of that region (history restored afterwards, so the "
+            "same decision is taken under several map iteration orders) + 0-3 random `put`s + 4-14 `scatter` calls "
+            "(a quarter of them preceded by 1-3 dry repetitions) over "
             "random regions and groups g1/g2/none on ONE RegionScatterer (its counters accumulate; a produced operator "
             "is usually applied to the region description before the next call) with `counters` dumps + 2-5 calls "
             "of balance-region / balance-leader / shuffle-region / shuffle-leader / evict-leader / grant-leader / label "
